@@ -38,12 +38,15 @@ class ORSet:
         node_id: Identifier for this replica.
     """
 
-    __slots__ = ("_entries", "_node_id", "_seq")
+    __slots__ = ("_entries", "_node_id", "_seq", "_tombstones")
 
     def __init__(self, node_id: str):
         self._node_id = node_id
         self._entries: dict[Any, set[tuple[str, int]]] = {}
         self._seq: int = 0
+        # Tags observed by a remove; merged by union so that a removed tag can
+        # never be re-introduced by a replica that has not seen the remove yet.
+        self._tombstones: set[tuple[str, int]] = set()
 
     @property
     def node_id(self) -> str:
@@ -81,6 +84,7 @@ class ORSet:
             element: The element to remove.
         """
         if element in self._entries:
+            self._tombstones |= self._entries[element]
             self._entries[element].clear()
 
     def contains(self, element: Any) -> bool:
@@ -106,11 +110,15 @@ class ORSet:
         Args:
             other: Another ORSet to merge from.
         """
+        self._tombstones |= other._tombstones
         for element, other_tags in other._entries.items():
             if element not in self._entries:
                 self._entries[element] = set(other_tags)
             else:
                 self._entries[element] |= other_tags
+        # Drop every tag that either side has seen removed
+        for tags in self._entries.values():
+            tags -= self._tombstones
 
     def to_dict(self) -> dict:
         """Serialize to a plain dict."""
@@ -122,6 +130,7 @@ class ORSet:
             "node_id": self._node_id,
             "seq": self._seq,
             "entries": entries,
+            "tombstones": [list(tag) for tag in sorted(self._tombstones)],
         }
 
     @classmethod
@@ -133,6 +142,7 @@ class ORSet:
         """
         s = cls(data["node_id"])
         s._seq = data["seq"]
+        s._tombstones = {tuple(tag) for tag in data.get("tombstones", [])}
         for element, tags in data["entries"].items():
             s._entries[element] = {tuple(tag) for tag in tags}
         return s
